@@ -9,6 +9,7 @@
 EXTENDS TokenFactory, Json
 Trace == ndJsonDeserialize("trace.ndjson")
 FundsSmall == <<2, 1, 0>>
+NoGrants == {{}}
 VARIABLE l
 tvars == <<vars, l>>
 
@@ -31,6 +32,7 @@ Bind(o) ==
   /\ supply' = [d \in AllDenoms |-> RecOf(o, d).sup]
   /\ bal'    = [d \in AllDenoms |-> [a \in Accounts |-> RecOf(o, d).bal[a]]]
   /\ funds'  = o.funds
+  /\ grants' = {<<o.grants[i][1], o.grants[i][2]>> : i \in DOMAIN o.grants}
 
 \* class of an ABCI result (codespace, code)
 Class(cs, code) ==
@@ -61,9 +63,14 @@ StepMonitors(e) ==
   /\ Report("C16.OwnBalanceOnly", OwnBalanceOnly)
   /\ Report("C16.AdminHandover", AdminHandover)
   /\ Report("C16.CreateNamespace", CreateNamespace /\
-            ((e.res = "ok" /\ e.act = "Create") => (e.nd.c = e.args.who /\ e.nd.s = e.args.s)))
-  /\ Report("C16.MetadataByAdmin", MetadataByAdmin)
+            ((e.res = "ok" /\ e.act = "Create") => (e.nd.c = e.args.as /\ e.nd.s = e.args.s)))
+  \* (metadata across a genesis round trip is judged by the two Reimport monitors below)
+  /\ Report("C16.MetadataByAdmin", e.act = "Reimport" \/ MetadataByAdmin)
   /\ Report("C16.FailureIsNoop", FailureIsNoop)
+  /\ Report("C16.FeeFromCreator", FeeFromCreator)
+  /\ Report("C16.ReimportPreserves", ReimportKeepsRecords /\ (e.act = "Reimport" => MetadataResetOnly))
+  /\ Report("C16.ReimportKeepsMetadata", ReimportKeepsMetadata)
+  /\ Report("C16.GrantsStable", grants' = grants)
 
 SpecAction(e) ==
   LET a == e.args  d == <<e.args.c, e.args.s>> IN
@@ -72,8 +79,9 @@ SpecAction(e) ==
     [] e.act = "Burn"        -> Burn(a.who, a.as, d, a.amt)
     [] e.act = "ChangeAdmin" -> ChangeAdmin(a.who, a.as, d, a.new)
     [] e.act = "SetMetadata" -> SetMetadata(a.who, a.as, d)
+    [] e.act = "Reimport"    -> Reimport
 
-Acts == {"Create", "Mint", "Burn", "ChangeAdmin", "SetMetadata"}
+Acts == {"Create", "Mint", "Burn", "ChangeAdmin", "SetMetadata", "Reimport"}
 
 TrInit == IsEvent("Init") /\ LET e == Trace[l] IN
   /\ Bind(e.obs)
@@ -84,7 +92,8 @@ TrInit == IsEvent("Init") /\ LET e == Trace[l] IN
   /\ Conf("Init", /\ denoms' = [d \in {} |-> 0]
                   /\ bmeta' = [d \in (IF e.args.nmeta = 1 THEN {Native} ELSE {}) |-> 0]
                   /\ supply' = Zero /\ bal' = [d \in AllDenoms |-> [a \in Accounts |-> 0]]
-                  /\ funds' = e.args.funds /\ e.feedenom = "ugrain")
+                  /\ funds' = e.args.funds /\ e.feedenom = "ugrain"
+                  /\ grants' = {<<e.args.grants[i][1], e.args.grants[i][2]>> : i \in DOMAIN e.args.grants})
 
 ActEvent(failed) == /\ l <= Len(Trace) /\ Trace[l].act \in Acts
                     /\ (Trace[l].res = "blockfail") = failed /\ l' = l + 1
@@ -103,7 +112,7 @@ TrAct == ActEvent(FALSE) /\ LET e == Trace[l]  a == e.args  ok == e.res = "ok"  
 \* a block that could not be finalised / committed at all
 TrBlockFail == ActEvent(TRUE) /\ UNCHANGED vars /\ Report("C16.BlockFailure", FALSE)
 
-TraceInit == InitWith(1) /\ l = 1
+TraceInit == InitWith(1, {}) /\ l = 1
 TraceNext == TrInit \/ TrAct \/ TrBlockFail
 TraceAccepted == TLCGet("stats").diameter - 1 = Len(Trace)
 =============================================================================
